@@ -96,48 +96,54 @@ def kernels():
     imports = [("PW.model", "M_rodrigues"), ("PW.model", "M_rodrigues_spec"), ("PW.proofs", "P_rodrigues")]
     ks = []
     R3 = "(V3 r0 r1 r2)"
+    # entrywise equality modulo theta^2 = r.r and theta * (1/theta) = 1 (so that I + s K + (1-c) K^2, c I + (1-c) u u^T + s K and
+    # any other arrangement of Rodrigues' formula with the unit axis u = r/theta are accepted): ring first, then nsatz
+    ALG = ("unfold Rdiv in *. match goal with |- context [sqrt ?x] => "
+           "assert (Ht : sqrt x * sqrt x = x) by (apply sqrt_sqrt; nra); "
+           "assert (Hit : / sqrt x * sqrt x = 1) by (apply Rinv_l; first [assumption | intro; lra]); "
+           "set (t := sqrt x) in *; set (it := / t) in *; clearbody it; clearbody t end. "
+           "list_eq ltac:(first [ring | nsatz]).")
     # forward matrix and Jacobian, generic branch
     ks.append(Kernel(
         "fwd_generic", {"r": [0.3, -0.5, 0.8]}, lambda r: r2m(r, True),
-        """Lemma {T}_ok : forall {vars} : R, {T}_path ROps {vars} ->
+        """From Coq Require Import Nsatz.
+Lemma {T}_ok : forall {vars} : R, {T}_path ROps {vars} ->
   {T} ROps {vars} = m3list (rodrigues_fwd ROps %s) ++ jac39_flat (rodrigues_fwd_jac ROps %s).
 Proof. intros {vars} Hpath. unfold {T}_path in Hpath; rops. path_facts Hpath. unfold nfrac in *; rops.
   unfold rodrigues_fwd, rodrigues_fwd_jac, rod_theta, vnorm, vnorm2, vdot; rops; cbn [vx vy vz].
   rewrite (proj2 (Rltb_false _ _)) by (unfold rod_eps, nfrac; rops; lra).
-  unfold {T}. cbv [%s]; rops. list_eq_ring. Qed.""" % (R3, R3, UNF),
+  unfold {T}. cbv [%s]; rops. %s Qed.""" % (R3, R3, UNF, ALG),
         imports=imports))
     # forward matrix only (calculate_jacobian=False returns the same matrix)
     ks.append(Kernel(
         "fwd_matrix_only", {"r": [-1.5, 2.0, 0.25]}, lambda r: r2m(r),
-        """Lemma {T}_ok : forall {vars} : R, {T}_path ROps {vars} -> {T} ROps {vars} = m3list (rodrigues_fwd ROps %s).
+        """From Coq Require Import Nsatz.
+Lemma {T}_ok : forall {vars} : R, {T}_path ROps {vars} -> {T} ROps {vars} = m3list (rodrigues_fwd ROps %s).
 Proof. intros {vars} Hpath. unfold {T}_path in Hpath; rops. path_facts Hpath. unfold nfrac in *; rops.
   unfold rodrigues_fwd, rod_theta, vnorm, vnorm2, vdot; rops; cbn [vx vy vz].
   rewrite (proj2 (Rltb_false _ _)) by (unfold rod_eps, nfrac; rops; lra).
-  unfold {T}. cbv [%s]; rops. list_eq_ring. Qed.
+  unfold {T}. cbv [%s]; rops. %s Qed.
 (* property-level statement directly on the traced definition: the code's matrix is orthogonal with determinant 1 *)
 Lemma {T}_proper : forall {vars} : R, {T}_path ROps {vars} ->
   exists M, {T} ROps {vars} = m3list M /\\ proper M.
 Proof. intros {vars} Hpath. exists (rodrigues_fwd ROps %s). split; [apply {T}_ok, Hpath | apply fwd_proper]. Qed."""
-        % (R3, UNF, R3),
+        % (R3, UNF, ALG, R3),
         imports=imports))
-    # theta < eps branch: identity and the literal Jacobian (the six +-1 entries are concrete in the code)
-    jdata = ["e"] * 27
-    for i in (5, 15, 19):
-        jdata[i] = -1
-    for i in (7, 11, 21):
-        jdata[i] = 1
+    # theta < eps branch: identity and the literal Jacobian.  The code may write the six +-1 entries as Python/NumPy integers
+    # or as floats (a constant table): `+ 0.0` makes every entry a traced expression either way, so the lemma does not
+    # depend on that choice.
     ks.append(Kernel(
-        "fwd_tiny", {"r": [0.0, 0.0, 0.0]}, lambda r: r2m(r, True),
+        "fwd_tiny", {"r": [0.0, 0.0, 0.0]}, lambda r: (lambda res: (res[0], res[1] + 0.0))(r2m(r, True)),
         """Lemma {T}_ok : forall {vars} : R, {T}_path ROps {vars} ->
-  {T} ROps {vars} = m3list (rodrigues_fwd ROps %s) ++ repeat 0 21 /\\
+  {T} ROps {vars} = m3list (rodrigues_fwd ROps %s) ++ jac39_flat (rodrigues_fwd_jac ROps %s) /\\
   jac39_flat (rodrigues_fwd_jac ROps %s) =
     [0;0;0;0;0;-1;0;1;0; 0;0;1;0;0;0;-1;0;0; 0;-1;0;1;0;0;0;0;0].
 Proof. intros {vars} Hpath. unfold {T}_path in Hpath; rops. path_facts Hpath. unfold nfrac in *; rops.
   unfold rodrigues_fwd, rodrigues_fwd_jac, rod_theta, vnorm, vnorm2, vdot; rops; cbn [vx vy vz].
   rewrite (proj2 (Rltb_true _ _)) by (unfold rod_eps, nfrac; rops; lra).
-  unfold {T}. cbv [%s]; rops. split; list_eq_ring. Qed.""" % (R3, R3, UNF),
+  unfold {T}. cbv [%s]; rops. split; list_eq_ring. Qed.""" % (R3, R3, R3, UNF),
         imports=imports, perturb=1e-18,
-        expect_structure={"tuple": [{"shape": [3, 3], "data": ["e"] * 9}, {"shape": [3, 9], "data": jdata}]}))
+        expect_structure={"tuple": [{"shape": [3, 3], "data": ["e"] * 9}, {"shape": [3, 9], "data": ["e"] * 27}]}))
     # inverse map after the svd step (LAPACK stubbed by the identity projection): generic branch, vector and Jacobian
     MV = " ".join("m%d" % i for i in range(9))
     M3 = "(M3 %s)" % MV
